@@ -83,12 +83,20 @@ def rule_installed(rep, repo, classes, rule, tier, base_configs):
     unit = "%s::%s._set_trainable_parameter" % (mod.relpath, cls)
     rep.unit(unit)
     loc = owner.module.loc(fn)
-    for kw in base_configs(cls, tier):
-      cfg = "%s(%s) installed as weight quantizer" % (cls, show_kw(kw))
+    for kw, used_before in itertools.product(list(base_configs(cls, tier)),
+                                             (False, True)):
+      cfg = "%s(%s) %sinstalled as weight quantizer" % (
+          cls, show_kw(kw), "called once, then " if used_before else "")
       try:
         pe, q = quant.construct(repo, cls, kw)
       except ConfigRejected:
         continue
+      if used_before:
+        # nothing computed during an earlier call may outlive the change
+        try:
+          pe.call(q, [pe.x_input()], {})
+        except PyRaise:
+          continue
       before = {p_: q.attrs.get(p_) for p_ in params}
       try:
         pe.call(pe.getattr(q, "_set_trainable_parameter"), [], {})
@@ -106,6 +114,7 @@ def rule_installed(rep, repo, classes, rule, tier, base_configs):
           kw2[p_] = b_
           changed.append(p_)
       err1 = err2 = out1 = d = None
+      pe.rand_counter = 0      # same names for the random draws as in `d`
       try:
         out1 = pe.call(q, [pe.x_input()], {})
       except PyRaise as e:
